@@ -224,7 +224,9 @@ def short(x, n=400):
 
 
 def oracle_histories(ctx: vlib.Ctx, n: int, keep_cases=None, focus=None):
-    for _ in range(n):
+    for _k in range(n):
+        if _k % 25 == 24:
+            F.purge_caches()
         case = gen_case(ctx.rng, nops=ctx.rng.randint(3, 8), focus=focus)
         if "skip" in case:
             ctx.hist("families", case["skip"])
@@ -456,7 +458,9 @@ class Holder({base}):
 
 
 def oracle_discriminated(ctx: vlib.Ctx, n: int):
-    for _ in range(n):
+    for _k in range(n):
+        if _k % 25 == 24:
+            F.purge_caches()
         src, twin_src, ops, info = gen_discriminated(ctx.rng)
         case = {"fam": info["fam"], "src": src, "twin_src": twin_src, "ops": ops}
         res = run_history(case)
@@ -505,6 +509,8 @@ def oracle_threads(ctx: vlib.Ctx, nfam: int, reps: int):
     old = sys.getswitchinterval()
     try:
         for fi in range(nfam):
+            if fi % 10 == 9:
+                F.purge_caches()
             case = gen_case(ctx.rng, nops=3, max_classes=4)
             if "skip" in case or case["mode"] == "eager" or not case["ops"]:
                 continue
@@ -575,20 +581,20 @@ def run(ctx: vlib.Ctx):
                 phases[name] = round(phases.get(name, 0) + time.time() - t0, 1)
         phase("theorems", c14_coq.theorems, ctx)
         cases = []
-        phase("histories", oracle_histories, ctx, ctx.budget(60, 1300), keep_cases=cases)
-        phase("histories-spec", oracle_histories, ctx, ctx.budget(60, 500), keep_cases=cases, focus="spec")
-        phase("histories-kwargs", oracle_histories, ctx, ctx.budget(50, 500), keep_cases=cases, focus="kwargs")
+        phase("histories", oracle_histories, ctx, ctx.budget(60, 600), keep_cases=cases)
+        phase("histories-spec", oracle_histories, ctx, ctx.budget(60, 300), keep_cases=cases, focus="spec")
+        phase("histories-kwargs", oracle_histories, ctx, ctx.budget(50, 300), keep_cases=cases, focus="kwargs")
         tie_ok = phase("correspondence", c14_coq.correspondence, ctx, cases)
         if not tie_ok or ctx.unshown:
             # a broken obligation / tie: search harder where the disagreement lives
-            phase("search-harder", oracle_histories, ctx, ctx.budget(150, 600), focus="spec")
-            phase("search-harder", oracle_histories, ctx, ctx.budget(100, 400), focus="kwargs")
+            phase("search-harder", oracle_histories, ctx, ctx.budget(150, 400), focus="spec")
+            phase("search-harder", oracle_histories, ctx, ctx.budget(100, 300), focus="kwargs")
         phase("scenarios", oracle_scenarios, ctx)
-        phase("discriminated", oracle_discriminated, ctx, ctx.budget(75, 600))
-        phase("threads", oracle_threads, ctx, ctx.budget(16, 150), ctx.budget(6, 12))
+        phase("discriminated", oracle_discriminated, ctx, ctx.budget(75, 300))
+        phase("threads", oracle_threads, ctx, ctx.budget(16, 80), ctx.budget(6, 10))
         # Config.allow_postponed_evaluation = False (last, so that the streams above are unchanged)
         apc_cases = []
-        phase("histories-apc", oracle_histories, ctx, ctx.budget(40, 400), keep_cases=apc_cases, focus="apc")
+        phase("histories-apc", oracle_histories, ctx, ctx.budget(40, 150), keep_cases=apc_cases, focus="apc")
         phase("correspondence", c14_coq.correspondence, ctx, apc_cases, tag="apc")
     finally:
         sys.setrecursionlimit(old)
